@@ -8,7 +8,7 @@ class C07(vlib.Spec):
     props_vo = "theories/Props/C07.vo"
     theorems = ["C07_distributes", "C07_respects_eq", "C07_keyed_parametric", "C07_all_shapes",
                 "C07_cartesian_is_product", "C07_ght_cartesian", "C07_ght_valtype_product",
-                "C07_ght_deep_join_rows_partial", "C07_ght_inputs_wf", "C07_holds_b_sound"]
+                "C07_ght_deep_join_rows_partial", "C07_ght_deep_join", "C07_ght_inputs_wf", "C07_holds_b_sound"]
     crate, group, binary = "h_morph", "light", "h_morph"
     imports = "From HV Require Import Lattice.MorphGHT.\nFrom HV Require Import Lattice.Univ Lattice.Morph."
     trusted_base = ["coqc 8.16.1 kernel (vm_compute used for case evaluation only)",
@@ -19,14 +19,15 @@ class C07(vlib.Spec):
                    "tuples of the cartesian product are encoded into N by the Cantor pairing (proved injective) "
                    "on both sides",
                    "GHT bimorphisms on e2-coll's trie model (Coll/ModelGHT.v): GhtCartesianProduct and GhtValTypeProduct "
-                   "proved with the crate's ==; DeepJoin/GhtNodeKeyed towers proved up to the set of rows only "
-                   "(C07_ght_deep_join_rows_partial) -- their == is checked on the implementation, not proved"]
+                   "proved with the crate's ==; DeepJoin/GhtNodeKeyed towers proved with the crate's == for tries "
+                   "built by the public API (C07_ght_deep_join, under the no-empty-child invariant PGHT.wf preserved by "
+                   "insert/merge)"]
     explanation = ("CartesianProductBimorphism, PairBimorphism and KeyedBimorphism (parametric in any wrapped bimorphism; "
                    "every shape by induction) are proved to distribute "
                    "over merge in each argument on the model; GHT cartesian / value-type product likewise; the GHT deep join "
-                   "(node-keyed towers) is proved to distribute up to the set of rows only (_rows_partial: the == of "
-                   "join outputs with empty children is finer than row equality and is only checked on the "
-                   "implementation); KeyedBimorphism is proved a bimorphism for ANY wrapped bimorphism (every nesting "
+                   "(node-keyed towers) is proved to distribute with the crate's structural == for inputs built by "
+                   "insert/merge (C07_ght_deep_join; the outputs may hold empty children, whose key structure is "
+                   "proved to coincide on both sides); KeyedBimorphism is proved a bimorphism for ANY wrapped bimorphism (every nesting "
                    "over Cartesian / Pair); the former finding on KeyedBimorphism<_, PairBimorphism> is fixed in "
                    "/repo (77f6722ffe1) and its witness is a corpus case.")
     rule = ("one case = (bimorphism instance, a, da, b, db) for 22 registered instances of 6 shapes (5 of them with the deltas in singleton / array / vec / option backed representations); da/db random "
